@@ -977,7 +977,7 @@ Section Clean.
         + pose proof (compiled_ok Hok _ _ _ _ _ Ec) as Ht.
           refine (IHtpl _ _ _ _ _ _ Ht Hictx H). exact Hst2.
         + destruct k as [|[?|[?|[?|?|]|]|]]; try discriminate H.
-          destruct ifexists; [|discriminate H]. inversion H; subst. split; [reflexivity|exact Hst2].
+          match type of H with (if ?c then _ else _) = _ => destruct c end; [|discriminate H]. inversion H; subst. split; [reflexivity|exact Hst2].
         + discriminate H.
         + discriminate H.
         + discriminate H.
@@ -2193,7 +2193,7 @@ Section CleanM.
         + pose proof (compiled_ok Hok _ _ _ _ _ Ec) as Ht.
           refine (IHtpl _ _ _ _ _ _ Ht Hictx H). exact Hst2.
         + destruct k as [|[?|[?|[?|?|]|]|]]; try discriminate H.
-          destruct ifexists; [|discriminate H]. inversion H; subst. split; [apply pc_nil|exact Hst2].
+          match type of H with (if ?c then _ else _) = _ => destruct c end; [|discriminate H]. inversion H; subst. split; [apply pc_nil|exact Hst2].
         + discriminate H.
         + discriminate H.
         + discriminate H.
